@@ -574,12 +574,12 @@ def run_tight_pool_case(case, watchdog_s):
     await asyncio.sleep(0.05)
     enq = [asyncio.ensure_future(q.async_enqueue_from_iterator(source(p))) for p in range(P)]
     try:
-      rec['first'] = await asyncio.wait_for(first_task, watchdog_s)
+      rec['first'] = await asyncio.wait_for(first_task, max(watchdog_s, 30.0))
     except Exception as e:  # pylint: disable=broad-exception-caught
       rec['first_error'] = repr(e)
       return 'setup', enq
     # all P enqueuers in put(): the buffer is full and P more elements are in hand
-    deadline = time.monotonic() + watchdog_s
+    deadline = time.monotonic() + max(watchdog_s, 30.0)   # generous: reaching the state is not judged
     def blocked():
       return q._queue.full() and getattr(pool, '_work_queue').qsize() == 0 and len(  # pylint: disable=protected-access
           [t for t in getattr(pool, '_threads') if t.is_alive()]) == P
